@@ -22,7 +22,10 @@ RULE = ("sum-product IR programs per semiring {(add,mul),(logaddexp,add),(max,ad
         "and >=2 routes completed; distinct by (semiring, IR hash) / (backend, equation, shapes)")
 ASSUMPTIONS = ["fv/refsem.py is the reference", "programs are generated inside the carrier of their semiring (non-negative data for max/min with mul, booleans for or/and)"]
 MIN_NONTRIVIAL = {"quick": 1500, "thorough": 15000}
-REQUIRED_COUNTERS = ["route:normalize:ok", "route:unfold:ok", "route:optimizer:ok", "route:eager:ok", "normalize-idempotent:checked", "einsum:ok"]
+REQUIRED_COUNTERS = ["route:normalize:ok", "route:unfold:ok", "route:optimizer:ok", "route:eager:ok", "normalize-idempotent:checked", "einsum:ok"] + [
+    # per semiring and route (each has a floor in fv/floors.json): a rule that declines for one semiring must not hide among the others
+    "semiring:%s-%s:%s:ok" % (a, b, r) for a, b in (("add", "mul"), ("logaddexp", "add"), ("max", "add"), ("min", "add"), ("max", "mul"), ("min", "mul"), ("or_", "and_"))
+    for r in ("eager", "normalize", "unfold", "optimizer")]
 
 ROUTES = ("eager", "normalize", "unfold", "optimizer")
 
@@ -104,6 +107,7 @@ def run_case(P, sr, res, riders, rng):
         res.count("route:%s:%s" % (route, v.status))
         if v.status == "ok":
             done += 1
+            res.count("semiring:%s-%s:%s:ok" % (sr[0], sr[1], route))
         if v.status == "bad":
             report(P, sr, route, v, res, rng)
         if route == "normalize" and mid is not None:
